@@ -1086,7 +1086,7 @@ func (en *Engine) transfer(st *State, fr *Frame, to *ssa.BasicBlock) []*State {
 	id := fr.ctx + "/loop." + fmt.Sprintf("%s:b%d", baseFn(fr.fn), to.Index)
 	// a loop whose exit test compares an induction variable (constant start and step) with a value that is a
 	// compile-time constant on this path — typically a range over a literal table — is executed as written
-	if en.constantTripLoop(st, fr, li, to, from) {
+	if en.constantTripLoop(st, fr, li, to, from) || flagBoundedLoop(to, from) {
 		fr.loops = append(fr.loops, &loopCtx{info: li, mode: 3, id: id})
 		en.enterBlock(st, fr, to, nil)
 		return []*State{st}
@@ -2263,4 +2263,46 @@ func zeroOrIndex(m, k Val, t types.Type, present bool) Val {
 		return zeroOf(t)
 	}
 	return mkIndex(m, k, t)
+}
+
+// flagBoundedLoop: `for second := false; ; second = true { ... if ... || second { return } ... }` — a loop carrying a
+// boolean that is a constant on entry and the opposite constant on every back edge runs its body at most twice as far as
+// that flag is concerned; it is executed as written (the trip cap of concrete loops applies).
+func flagBoundedLoop(header, from *ssa.BasicBlock) bool {
+	idx := -1
+	for i, p := range header.Preds {
+		if p == from {
+			idx = i
+		}
+	}
+	if idx < 0 {
+		return false
+	}
+	for _, in := range header.Instrs {
+		phi, ok := in.(*ssa.Phi)
+		if !ok {
+			break
+		}
+		if !isBoolType(phi.Type()) {
+			continue
+		}
+		c0, ok := phi.Edges[idx].(*ssa.Const)
+		if !ok || c0.Value == nil {
+			continue
+		}
+		all := true
+		for j, e := range phi.Edges {
+			if j == idx {
+				continue
+			}
+			cj, ok := e.(*ssa.Const)
+			if !ok || cj.Value == nil || cj.Value.String() == c0.Value.String() {
+				all = false
+			}
+		}
+		if all && len(phi.Edges) > 1 {
+			return true
+		}
+	}
+	return false
 }
